@@ -387,6 +387,10 @@ pub fn gen(tier: &str, rng: &mut Rng, emit: &mut Emit) {
     if tier == "thorough" {
         let ops = (0..65_540).map(|_| { let f = rng.below(4); pcierc_op(rng, &[], f, None) }).collect();
         emit_ops(rng, emit, ops);
+    } else if wants_long_runs(tier, emit) {
+        let ops = (0..65_538).map(|_| { let f = rng.below(4); pcierc_op(rng, &[], f, None) }).collect();
+        let c = rand_ctor(rng);
+        emit.case(18, history_at(c, ops, &[65_535, 65_536, 65_537]));
     }
     // random mixed histories, later mappings referring to random earlier IOMMU handles
     let n = if tier == "thorough" { 3000 } else { 200 };
